@@ -1,7 +1,7 @@
 (** Bridges for stroke.rs (C04): the generated functions push onto the paths of the context one call at
     a time; the model computes the pushed elements as one list and appends once.  Equal up to
     associativity of [++] and [nth (length l - 1) l d = last l d]. *)
-From Coq Require Import ZArith QArith List Bool Floats.
+From Coq Require Import ZArith QArith List Bool Floats Arith Lia.
 From KV Require Import Scalar Geom Curves Path Affine PathOps Stroke.
 From KVGen Require Gen.
 From KVBridge Require Import BridgeLib.
@@ -34,4 +34,40 @@ Proof.
   intros T S [out fw bw sp sn st lp lt jt] [w j ml sc ec ip].
   sk_unfold Gen.sk_finish_closed. destruct fw; [reflexivity|].
   rewrite ?nth_last. destruct j; br_ifs; sk_unfold f0; rewrite ?nth_last; br_done.
+Qed.
+
+(** ** [extend_reversed]: [for i in (1..elements.len()).rev()] reading [elements[i - 1]] and [elements[i]] against the model's
+    structural recursion ([extend_reversed (e0 :: e1 :: r) = extend_reversed (e1 :: r) ++ rev_el e0 e1]).  The generated loop
+    over the index list appends [rev_el elements[i-1] elements[i]] per index ([ext_loop]); over [len-1, .., 1] that is the
+    model's list ([ext_indices], induction on the elements: the indices of the tail are those of the list shifted by one). *)
+Section ExtendReversed.
+Context {T : Type} `{Scalar T}.
+Let d : PathEl T := MoveTo (mkPoint f0 f0).
+
+Definition ext_at (els : list (PathEl T)) (i : nat) : list (PathEl T) := rev_el (nth (i - 1) els d) (nth i els d).
+
+Lemma ext_indices (els : list (PathEl T)) :
+  concat (map (ext_at els) (rev (seq 1 (length els - 1)))) = KV.Stroke.extend_reversed els.
+Proof.
+  induction els as [|e0 r IH]; [reflexivity|].
+  destruct r as [|e1 r']; [reflexivity|].
+  change (length (e0 :: e1 :: r') - 1)%nat with (Datatypes.S (length r')).
+  change (length (e1 :: r') - 1)%nat with (length r' - 0)%nat in IH. rewrite Nat.sub_0_r in IH.
+  cbn [seq rev]. rewrite map_app, concat_app. cbn [map concat]. rewrite app_nil_r.
+  change (KV.Stroke.extend_reversed (e0 :: e1 :: r')) with (KV.Stroke.extend_reversed (e1 :: r') ++ rev_el e0 e1).
+  f_equal. rewrite <- IH, <- seq_shift, <- map_rev, map_map. f_equal.
+  apply map_ext_in. intros i Hi. apply in_rev, in_seq in Hi.
+  unfold ext_at. destruct i as [|i]; [lia|]. cbn [nth Nat.sub]. rewrite Nat.sub_0_r. reflexivity.
+Qed.
+End ExtendReversed.
+
+Lemma br_sk_extend_reversed : forall (T : Type) (S : Scalar T) (out_ : (list (PathEl T))) (elements_ : (list (PathEl T))), Gen.sk_extend_reversed out_ elements_ = out_ ++ KV.Stroke.extend_reversed elements_.
+Proof.
+  intros T S out els. rewrite <- ext_indices.
+  cbv beta zeta delta [Gen.sk_extend_reversed].
+  generalize (rev (seq 1 (length els - 1))). intro l. revert out.
+  induction l as [|i l IH]; intro out; [symmetry; apply app_nil_r|].
+  cbn [map concat]. rewrite app_assoc, <- IH. cbv beta iota zeta. f_equal.
+  unfold ext_at, rev_el, el_end_or, pt_origin, bp_line_to, bp_quad_to, bp_curve_to, bp_push.
+  destruct (nth i els (MoveTo (mkPoint f0 f0))); try reflexivity; symmetry; apply app_nil_r.
 Qed.
